@@ -1,3 +1,4 @@
 import Sge.Dec
 import Sge.Mint
 import Sge.Core.Chain
+import Sge.Ovm
